@@ -40,7 +40,13 @@ impl Prop for C02 {
             Tier::Thorough => 50000,
         }
     }
-    fn run_case(&self, cfg: &RunCfg, _idx: usize, rng: &mut Rng, out: &mut Out) {
+    fn run_case(&self, cfg: &RunCfg, idx: usize, rng: &mut Rng, out: &mut Out) {
+        if idx % 8 == 7 {
+            for _ in 0..12 {
+                scan_differential(rng, out);
+            }
+            return;
+        }
         let mut gcfg = GenCfg::order_insensitive();
         if cfg.tier == Tier::Thorough {
             gcfg.max_stanzas = 8;
@@ -247,4 +253,58 @@ fn add_failing_later_condition(rng: &mut Rng, case: &mut ProgCase) -> bool {
     case.prog.file.number();
     case.text = crate::gen::print::print_house(&mut case.prog.file);
     true
+}
+
+/// Scan-only programs (regex language of C10, incl. anchors and word boundaries): whatever
+/// reading of "restart after the matched text" an implementation takes, both modes must take the
+/// same one.
+fn scan_differential(rng: &mut Rng, out: &mut Out) {
+    let (text, subject) = match super::c10::gen_scan_case(rng) {
+        Some(x) => x,
+        None => return,
+    };
+    let file = match exec::load(&text) {
+        Loaded::Ok(f) => f,
+        _ => {
+            out.feat("scan:load_rejected");
+            return;
+        }
+    };
+    let source = "pass";
+    let tree = parse_python(source);
+    let ti = TreeInfo::new(&tree);
+    let mut globals = std::collections::BTreeMap::new();
+    globals.insert("subject".to_string(), crate::model::value::MVal::Str(subject.clone()));
+    let functions = stdlib();
+    let mut o = ExecOpts::new(false);
+    o.poll_limit = 200_000;
+    let strict = exec::execute(&file, &tree, source, &ti, &globals, &functions, &o);
+    let mut o = ExecOpts::new(true);
+    o.poll_limit = 200_000;
+    let lazy = exec::execute(&file, &tree, source, &ti, &globals, &functions, &o);
+    out.evals(2);
+    let mut cj = json!({"dsl": text, "source": source, "globals": {"subject": subject}});
+    cj["strict"] = json!(strict.real.brief());
+    cj["lazy"] = json!(lazy.real.brief());
+    if strict.poll_limit_hit || lazy.poll_limit_hit {
+        out.violation("C02:no-termination", "scan exceeded the poll budget", cj);
+        return;
+    }
+    match (&strict.real, &lazy.real) {
+        (Real::Panic(p), _) | (_, Real::Panic(p)) => out.violation(&format!("C02:scan-panic:{}", p.site_file()), &format!("{}: {}", p.location, p.message), cj),
+        (Real::Unreadable(s), _) | (_, Real::Unreadable(s)) => out.violation("C02:unreadable-graph", s, cj),
+        (Real::Graph(a), Real::Graph(b)) => match isomorphic(a, b, 200_000) {
+            Iso::Same => {
+                out.feat("scan:agree:graph");
+                if a.nodes.len() >= 2 {
+                    out.nontrivial(crate::util::mix(&[crate::util::hash_str(&text), crate::util::hash_str(&subject)]));
+                }
+            }
+            Iso::Different(why) => out.violation("C02:scan-graphs-differ", &format!("strict and lazy scans ran different arm sequences: {}", why), cj),
+            Iso::Unknown => out.inconclusive("isomorphism budget exhausted"),
+        },
+        (Real::Error(..), Real::Error(..)) => out.feat("scan:agree:error"),
+        (Real::Graph(_), Real::Error(e, _)) => out.violation(&format!("C02:lazy-fails:{}", e.root), &format!("strict scan succeeds, lazy fails: {}", crate::util::trunc(&e.display, 300)), cj),
+        (Real::Error(e, _), Real::Graph(_)) => out.violation(&format!("C02:lazy-succeeds:{}", e.root), &format!("strict scan fails, lazy succeeds: {}", crate::util::trunc(&e.display, 300)), cj),
+    }
 }
